@@ -99,6 +99,7 @@ import CxxModel.Theorems.UsingDecl
 import CxxModel.GenCfg
 import CxxModel.Theorems.TopLevel
 import CxxModel.Theorems.VarDecls
+import CxxModel.Theorems.WholeParse
 namespace Cxx
 
 theorem C01_dispatch : Gen.dispatchTable.length = 20 ∧ Gen.dispatchTable.lookup ";" = some "<lambda:Constant(None)>" ∧
@@ -314,7 +315,7 @@ theorem C01_declaration_statement (env : Env) (hnf : env.faultAt = none) (F D : 
     Yields env.cfg w.buf (ds.flatMap (fun p => p.1.toks) ++ last.1.toks) b' → ds.length + 1 ≤ n →
     ∃ (wF : World) (evs : List Event) (doxs : List (Option String)) (l : LocRef) (blkF : Block),
       interp env (loopN n (loc, dox) (declaratorBody F (core F (D + 1)) pt {} .none false false)) w = (wF, .ok ()) ∧
-      SigEq b' wF.buf ∧ wF.stack = blkF :: rest ∧ blkF.id = blkId ∧ blkF.hdr = hdr ∧ blkF.loc = l ∧
+      SigEq b' wF.buf ∧ wF.stack = blkF :: rest ∧ blkF.id = blkId ∧ blkF.hdr = hdr ∧ blkF = { blk with loc := l } ∧
       wF.events = w.events ++ evs ∧ doxs.length = ds.length + 1 ∧
       evs.map (·.kind) = varKinds (ds ++ [last]) doxs ∧ (∀ e ∈ evs, e.stateId = blkId ∧ e.parentId = rest.head?.map (·.id)) ∧
       (∀ d, dox = some d → doxs.head? = some (some d)) ∧
@@ -567,5 +568,81 @@ theorem C01_toplevel_function_params (env : Env) (hc : env.cfg = genLexCfg) (F D
     htok hty htv hall hy0 hops hopsv hy ha htx hx hxv hto hop hallp hlastp hlF hcp hcpv hyp hFp hsemi hs hF
 
 end
+
+/-! ### whole sources -/
+
+/-- **C01 for whole sources** (`Theorems/WholeParse.lean`): over the regenerated lexer rules, for a
+    visitor that neither raises nor skips, the COMPLETE run `CxxParser(...).parse()` on ANY source
+    whose significant tokens form an `Item` — any number of declarations of the proven forms in any
+    order, namespaces, extern blocks and classes nested to any depth, any layout and comments —
+    returns normally and delivers `on_parse_start` followed by exactly the item's callbacks:
+    one per declaration, in source order, each in the scope it was written in. -/
+theorem C01_whole_source (env : Env) (hc : env.cfg = genLexCfg) (hnf : env.faultAt = none) (F D : Nat)
+    (it : Item env F (P.core F D)) (filename : String) (content : Str) (bE bEE : Buf)
+    (hat : it.At { tokbuf := [], lex := { rest := content, filename := some filename } } bE)
+    (heof : tokenEofOk env.cfg bE = .ok (none, bEE)) (hF : it.size + 1 ≤ F) :
+    ∃ (wF : World) (start : Event) (evs : List Event),
+      runParse env filename content (P.parserProg F D) = (wF, .ok) ∧ wF.events = start :: evs ∧
+      start.kind = .parseStart ∧ it.Ev globalBlock [] evs ∧ (∃ g, wF.stack = [g] ∧ g.id = 0 ∧ g.isGlobal = true) :=
+  parse_source env (by rw [hc]; exact gen_rules_progress) hnf F D it filename content bE bEE hat heof hF
+
+/-- **the loop is the sequence of its items**: from any state at non-class scope with an active
+    visitor, a source piece made of the items `its` runs all their iterations and the callbacks
+    added are the items' groups, one per item, in order (`SeqEv`) -/
+theorem C01_sequence (env : Env) (F : Nat) (c : P.Core) (its : List (Item env F c)) (w : World) (b' : Buf) (blk : Block)
+    (rest : List Block) (hst : w.stack = blk :: rest) (hk : blk.hdr.kind ≠ .cls) (hmu : w.muted = false)
+    (hat : SeqAt its w.buf b') :
+    ∃ (w7 : World) (evs : List Event), Ran env F c w (seqSize its) b' blk rest evs w7 ∧ SeqEv blk rest its evs :=
+  seq_sound its w b' blk rest hst hk hmu hat
+
+/-- any number of `T ptr-ops x ;` declarations: one `on_variable` each, in order, to the end of input -/
+theorem C01_variable_sequence (env : Env) (hc : env.cfg = genLexCfg) (hnf : env.faultAt = none) (F D : Nat)
+    (rest : List Block) (vs : List VarDeclToks) (w : World) (b bE bEE : Buf) (blk : Block)
+    (hst : w.stack = blk :: rest) (hk : blk.hdr.kind ≠ .cls) (hmu : w.muted = false)
+    (hsig : SigEq b w.buf) (hvs : VarDeclsAt env.cfg b vs bE) (heof : tokenEofOk env.cfg bE = .ok (none, bEE))
+    (hF : ∀ v ∈ vs, v.pairs.length + v.ops.length + 2 ≤ F) (hn : vs.length + 1 ≤ F) :
+    ∃ (wF : World) (evs : List Event) (blkF : Block),
+      interp env (P.mainLoop F (P.core F (D + 1 + 1))) w = (wF, .ok ()) ∧
+      wF.events = w.events ++ evs ∧ OneEach (VarEventFor blk.id (rest.head?.map (·.id))) evs vs ∧
+      wF.stack = blkF :: rest ∧ blkF.hdr = blk.hdr ∧ blkF.id = blk.id ∧
+      wF.delivered = w.delivered + vs.length ∧ wF.anon = w.anon ∧ wF.muted = false ∧ wF.nextId = w.nextId :=
+  parse_variable_sequence env (by rw [hc]; exact gen_rules_progress) hnf F D rest vs w b bE bEE blk hst hk hmu hsig hvs heof hF hn
+
+/-! non-vacuity of `C01_whole_source`: the token sequence of
+    `namespace a { T x ; ; class C { T f ; public : T g ; } ; }` is an `Item` (a namespace holding a
+    variable, a stray `;` and a class with two fields around an access specifier), read from a stream
+    that holds those tokens. -/
+section nonvacuity
+private def tkw (ty v : String) : Tok := { type := ty, value := v, loc := default, sidx := 0 }
+private def tyT : DType := .type (.mk [.name "T" none] none false) false false
+private def vdecl (x : String) : VarDeclToks :=
+  { first := tkw "NAME" "T", pairs := [], ops := [], x := tkw "NAME" x, semi := tkw ";" ";", d1 := tyT }
+
+private theorem vdecl_ok (x : String) (hx : identVal x = true) (F : Nat) (hF : 2 ≤ F) : (vdecl x).OK F :=
+  ⟨rfl, by show identVal "T" = true; decide, by simp [vdecl], rfl, by simp [vdecl], rfl, rfl, hx, rfl, by simp [vdecl]; omega⟩
+
+example (env : Env) (hp : RulesProgress env.cfg = true) (hnf : env.faultAt = none) (hskip : ∀ i h, env.skip i h = false)
+    (F D : Nat) (hF : 2 ≤ F) (lex : LexState) :
+    ∃ bE, (Item.ns env hp hnf F D hskip ["a"] (Item.seq [Item.variable env hp hnf F D (vdecl "x"), Item.semicolon env hp F D,
+        Item.cls env hp hnf F D hskip (tkw "class" "class") (tkw "NAME" "C") []
+          [Member.field env hp hnf F D (vdecl "f"), Member.accessSpec env hp F D (tkw "public" "public") (tkw ":" ":"),
+           Member.field env hp hnf F D (vdecl "g")]])).At
+      { tokbuf := [tkw "namespace" "namespace", tkw "NAME" "a", tkw "{" "{", tkw "NAME" "T", tkw "NAME" "x", tkw ";" ";", tkw ";" ";",
+          tkw "class" "class", tkw "NAME" "C", tkw "{" "{", tkw "NAME" "T", tkw "NAME" "f", tkw ";" ";", tkw "public" "public",
+          tkw ":" ":", tkw "NAME" "T", tkw "NAME" "g", tkw ";" ";", tkw "}" "}", tkw ";" ";", tkw "}" "}"], lex := lex, bounded := true } bE := by
+  let B : List Tok → Buf := fun l => { tokbuf := l, lex := lex, bounded := true }
+  have Y : ∀ (ts rest : List Tok), (∀ t ∈ ts, isDiscard t.type = false) → Yields env.cfg (B (ts ++ rest)) ts (B rest) :=
+    fun ts rest h => Yields.of_tokbuf env.cfg lex true ts rest h
+  refine ⟨B [], tkw "namespace" "namespace", tkw "NAME" "a", [], tkw "{" "{", tkw "}" "}", B _, B [tkw "}" "}"],
+    rfl, rfl, by simp, rfl, rfl, by show 0 + 1 ≤ F; omega, Y [_, _, _] _ (by decide), ?_, (Y [tkw "}" "}"] [] (by decide)).single_inv, rfl⟩
+  refine .cons (b1 := B _) ⟨vdecl_ok "x" (by decide) F hF, Y [_, _, _] _ (by decide)⟩
+    (.cons (b1 := B _) ⟨tkw ";" ";", (Y [tkw ";" ";"] _ (by decide)).single_inv, rfl⟩
+      (.cons (b1 := B _) ?_ (.nil _)))
+  refine ⟨tkw "{" "{", tkw "}" "}", tkw ";" ";", B _, B [tkw "}" "}", tkw ";" ";", tkw "}" "}"], by decide, rfl, rfl, by decide, by simp, rfl, rfl, rfl,
+    by show 0 + 2 ≤ F; omega, Y [_, _, _] _ (by decide), ?_, Y [_, _] _ (by decide)⟩
+  exact .cons (b1 := B _) ⟨vdecl_ok "f" (by decide) F hF, Y [_, _, _] _ (by decide)⟩
+    (.cons (b1 := B _) ⟨.inl rfl, rfl, Y [_, _] _ (by decide)⟩
+      (.cons (b1 := B _) ⟨vdecl_ok "g" (by decide) F hF, Y [_, _, _] _ (by decide)⟩ (.nil _)))
+end nonvacuity
 
 end Cxx
